@@ -215,6 +215,10 @@ pub fn check_trait<S: Attack>(c: &Case, ctx: &mut CaseCtx) -> Result<(), Failure
                 ctx.label("forgery_claims_true_values");
                 return Ok(());
             }
+            if f.guard_log2.map(|lp| lp > -40.0).unwrap_or(false) {
+                ctx.label("toy_soundness_not_asserted");
+                return Ok(());
+            }
             ctx.nontrivial = true;
             desc["forgery"] = json!(f.desc);
             ctx.derived = Some(desc);
